@@ -546,7 +546,8 @@ def make_env(d: Dict[str, object]) -> Dict[str, object]:
 
 def walk(g, interp: Interp, env: Dict[str, object], starts: Optional[Iterable[int]] = None,
          stop: Optional[Callable[[object], bool]] = None, follow_raise: bool = True,
-         on_node: Optional[Callable[[object, Dict[str, object]], None]] = None, escapes: Optional[list] = None) -> Set[int]:
+         on_node: Optional[Callable[[object, Dict[str, object]], None]] = None, escapes: Optional[list] = None,
+         undecided: Optional[list] = None) -> Set[int]:
     """Small-step partial evaluation over a CFG: node ids reachable from ``starts`` (default entry) when every
     atomic test the environment decides takes only the decided edge.  Assignments / augmented assignments /
     slice deletions whose target is a plain local or an environment entry (``self.x``) and whose value the
@@ -598,8 +599,26 @@ def walk(g, interp: Interp, env: Dict[str, object], starts: Optional[Iterable[in
                 out = [(d, l) for d, l in out if l == ("T" if val else "F")]
             except (Unknown, Unsupported):
                 out = [(d, l) for d, l in out if l in ("T", "F")]
-            except Raised:
-                out = []
+                if undecided is not None:
+                    undecided.append(n)
+            except Raised as r:
+                hs = [d for d, l in out if l == "exc" and g.node(d).kind == "handler" and catches(interp, g.node(d).ast, r.name)]
+                if hs:
+                    out = [(hs[0], "exc")]
+                else:
+                    out = [(d, l) for d, l in out if l == "exc" and g.node(d).kind != "handler"]
+                    if escapes is not None:
+                        escapes.append((n, r.name))
+        elif node.kind == "stmt" and isinstance(node.ast, ast.Raise) and node.ast.exc is not None and _raise_args_fail(interp, node.ast, cur) is not None:
+            # building the exception object itself raises (e.g. message formatting of untrusted bytes)
+            name = _raise_args_fail(interp, node.ast, cur)
+            hs = [d for d, l in out if l in ("raise", "exc") and g.node(d).kind == "handler" and catches(interp, g.node(d).ast, name)]
+            if hs:
+                out = [(hs[0], "raise")]
+            else:
+                out = [(d, l) for d, l in out if g.node(d).kind != "handler"]
+                if escapes is not None:
+                    escapes.append((n, name))
         else:
             allout = out
             out = [(d, l) for d, l in out if l != "exc" and (follow_raise or l != "raise")]
@@ -683,6 +702,42 @@ def walk(g, interp: Interp, env: Dict[str, object], starts: Optional[Iterable[in
         for d, l in out:
             stack.append((d, killed, extras))
     return {k[0] for k in seen}
+
+
+def _raise_args_fail(interp: Interp, st: ast.Raise, env) -> Optional[str]:
+    """Name of the exception raised while evaluating the arguments of ``raise X(args)`` under env, else None."""
+    e = st.exc
+    if not isinstance(e, ast.Call):
+        return None
+    for a in list(e.args) + [k.value for k in e.keywords]:
+        try:
+            interp.ev(a, env)
+        except Raised as r:
+            return r.name
+        except (Unknown, Unsupported):
+            continue
+    return None
+
+
+def risky_calls(node: ast.AST) -> List[ast.Call]:
+    """Calls inside ``node`` that can raise on arbitrary untrusted bytes/text: strict .decode()/.encode() (no errors=
+    argument), int()/float(), .index(), struct.unpack()."""
+    out = []
+    for c in ast.walk(node):
+        if not isinstance(c, ast.Call):
+            continue
+        a = call_attr(c)
+        if isinstance(c.func, ast.Attribute) and a in ("decode", "encode"):
+            has_errors = len(c.args) >= 2 or any(k.arg == "errors" for k in c.keywords)
+            if not has_errors and not isinstance(c.func.value, ast.Constant):
+                out.append(c)
+        elif isinstance(c.func, ast.Name) and a in ("int", "float") and c.args and not isinstance(c.args[0], ast.Constant):
+            out.append(c)
+        elif isinstance(c.func, ast.Attribute) and a in ("index", "unpack", "unpack_from"):
+            out.append(c)
+        elif isinstance(c.func, ast.Name) and a in ("nativeString", "networkString") and c.args and not isinstance(c.args[0], (ast.Constant, ast.JoinedStr)):
+            out.append(c)
+    return out
 
 
 # ---- structural helpers ----------------------------------------------------------------------------
